@@ -370,8 +370,14 @@ def run_case(idx, rng, P, rep):
         outcome_sig.append((tname, tuple(sorted(exp)), bool(failed)))
         if failed is not None:
             if via_add:
-                # the Parameter object was attached before validation failed: the class is unusable for the model
-                classes.append(None if False else dict(cls=type(f'H{idx}_{ci}b', base_classes, {}), held=None))
+                # a refused Parameter is not left behind: the class is what it was before the attempt - one that does not
+                # declare `p` (and goes on as such)
+                rep.count('refused_add_parameter_checks')
+                if 'p' in vars(cls) or (not ancestors and 'p' in cls.param):
+                    viol(f'refused-parameter-left-on-class/{tname}', f'level {ci}: add_parameter("p", {tname}({exp})) raised '
+                         f'{type(failed).__name__}, yet the class now has p = {vars(cls).get("p")!r} (default {getattr(cls, "p", None)!r})')
+                    cls = type(f'H{idx}_{ci}b', base_classes, {})
+                classes.append(dict(cls=cls, held=None))
             else:
                 classes.append(dict(cls=type(f'H{idx}_{ci}b', base_classes, {}), held=None))
             continue
